@@ -8,7 +8,7 @@ from props import c01
 
 ID = "C02"
 # look-alikes of prelude names (vlib/defs.py HOSTILE) this check's derives are immune to on the unchanged tree
-HOSTILE_OK = ['Result', 'Some', 'Ok', 'Iterator', 'Clone', 'AsRef', 'Send', 'PhantomData', 'IterGet', 'm_matches', 'm_assert', 'm_fmt', 'c_binders']
+HOSTILE_OK = ['Result', 'Some', 'Ok', 'Iterator', 'Clone', 'AsRef', 'Send', 'PhantomData', 'IterGet', 'm_matches', 'm_assert', 'm_fmt', 'c_binders', 'ByValue']
 PROP_FILE = "Props/C02.v"
 RULE = ("definitions: C01's regression + systematic + seeded random enums without prefix, NonOverlap by the model's predicate, "
         "deriving EnumString together with Display (or the deprecated ToString), AsRefStr, IntoStaticStr and EnumMessage, under all "
